@@ -3,7 +3,7 @@ import os
 import re
 
 from . import common as K
-from .facts import Call, const_val, is_const, op_str, operand_local, place_str
+from .facts import Call, const_val, is_const, op_str, operand_local, place_str, place_fields
 
 VL = "draw_target::VisualLines"
 LINETYPE = "draw_target::LineType"
@@ -1201,6 +1201,34 @@ def rule_every_line_painted(ctx, crate, rule="R-EVERY-LINE-PAINTED"):
         start = pb.term(h.bb).get("t")
         # from the start of an iteration, can the header be reached again without passing the paint call?
         again = h.bb in pb.reach([start], avoid=[c.bb]) if start is not None else False
+        # printed text is painted whatever its height: on the CFG specialised to a non-bar line neither the next iteration nor
+        # the end of the loop can be reached from the start of an iteration without passing the paint call (the terminal-height
+        # test concerns bar lines only - a log line higher than the terminal scrolls, it is not dropped)
+        # (the iteration proper starts on the `Some` edge of the loop's `next()` test)
+        body_start = None
+        for sb, t in pb.switches():
+            for st in pb.stmts(sb):
+                if st.get("k") == "assign" and st["rv"]["k"] == "discr" and st["rv"]["place"]["l"] == h.dest["l"] and operand_local(t["op"]) == st["lhs"]["l"]:
+                    some = [tb for v_, tb in t["targets"] if v_ == 1]
+                    body_start = some[0] if some else t["otherwise"]
+        if body_start is not None:
+            flush_bbs_ = {x.bb for x in tl_calls(pb, "flush")}
+            start_ = body_start
+            for v in K.variant_names(crate, LINETYPE) or []:
+                if v == "Bar":
+                    continue
+                _Rv, avoid_v = K.variant_reach(pb, crate, LINETYPE, v, want_avoid=True)
+                err_ = set()
+                for tk in pb.calls(K.TRY_BRANCH):
+                    te = K.try_edges(pb, tk)
+                    if te:
+                        err_.add((te[0], te[2]))
+                r_ = pb.reach([start_], avoid=[c.bb], avoid_edges=set(avoid_v) | err_)
+                skipped = (h.bb in r_) or bool(r_ & flush_bbs_)
+                ctx.check(not skipped, rule, "text-always-painted:%s#%d" % (v, k), pb.name, c.loc(),
+                          "a %s line is written in every iteration that sees one" % v,
+                          "a %s line (printed text) can be skipped or end the loop without being written: the terminal-height test applies to it, so a log line that "
+                          "wraps to more rows than the terminal has is dropped together with everything after it" % v, cfg)
         ctx.check(not again, rule, "no-skipped-line#%d" % k, pb.name, c.loc(),
                   "every iteration of the paint loop that continues to the next line has written its line",
                   "the paint loop can go on to the next line without writing the current one (and without its newline / last-line filler)", cfg)
@@ -1417,6 +1445,46 @@ def rule_cr_needs_rows(ctx, crate, rule="R-ERASE-STAYS-IN-REGION"):
                   "the erase phase writes \"\\r\" also when the previous row count is 0 (move_cursor mode): the cursor is still on the row the previous output ended on, "
                   "so the frame is painted over that row - mp.set_move_cursor(true); mp.println(\"hello\"); bar.tick() replaces \"hello\" by the bar", cfg)
     ctx.extra.setdefault("erase_cr_sites", {})[cfg] = len(crs)
+
+
+def rule_render_unless_hidden(ctx, crate, rule="R-RENDER-UNLESS-HIDDEN"):
+    """Every function that rebuilds a bar's stored rendering (it takes the slot's DrawState, which empties it, and draws)
+    renders the bar again unless it is finished-and-cleared: on the CFG specialised to status = DoneHidden the call to
+    ProgressStyle::format_state is unreachable; for InProgress and DoneVisible every path from the entry to the final
+    `Drawable::draw` passes it (the `None` edges of Option tests - no drawable, no width - excepted). The two siblings
+    (`BarState::draw`, `BarState::println`) must agree: a `println` that skips the rendering of every *finished* bar makes a
+    visibly finished bar vanish from its slot."""
+    cfg = crate.config
+    n = 0
+    for b in K.lib_bodies(crate):
+        if b.kind == "Closure":
+            continue
+        fmts = b.calls(r"style::ProgressStyle::format_state")
+        draws = b.calls(r"draw_target::Drawable::<'_>::draw")
+        if not fmts or not draws:
+            continue
+        n += 1
+        is_status = lambda pl: bool(place_fields(pl)) and place_fields(pl)[-1][2] == "status"
+        none_edges = set()
+        for sb, t, pl, d in K.discr_switches(b):
+            if K.head_of_type(pl.get("ty", "")) != "std::option::Option":
+                continue
+            for tgt, vs in K.edge_variants(crate, t, "std::option::Option").items():
+                if vs == {"None"}:
+                    none_edges.add((sb, tgt))
+        fbbs = {c.bb for c in fmts}
+        for v in K.variant_names(crate, "state::Status") or []:
+            R, avoid = K.variant_reach(b, crate, "state::Status", v, is_status, want_avoid=True)
+            if v == "DoneHidden":
+                ctx.check(not (fbbs & R), rule, "%s:hidden-not-rendered" % K.meth(b.name), b.name, fmts[0].loc(),
+                          "a finished-and-cleared bar is not rendered", "a finished-and-cleared bar is rendered again (it reappears)", cfg)
+            else:
+                esc = b.reach([0], avoid=fbbs, avoid_edges=set(avoid) | none_edges) & {c.bb for c in draws}
+                ctx.check(not esc, rule, "%s:%s-rendered" % (K.meth(b.name), v), b.name, fmts[0].loc(),
+                          "a bar in state %s is rendered on every path to the draw" % v,
+                          "%s can reach its draw without rendering a bar in state %s (a condition other than `status is DoneHidden` skips format_state): the slot's "
+                          "lines were taken, so the bar vanishes from the frame" % (K.meth(b.name), v), cfg)
+    ctx.floor(rule, n, 2, cfg, "functions that render and draw a bar")
 
 
 def rule_rows_finite(ctx, crate, rule="R-ROWS-FINITE"):
